@@ -76,6 +76,7 @@ def real_collect(records, chr_lengths, high_memory, strategy="take_best", pickle
                                          multimap_strategy=MR.MultimapResolvingStrategy[strategy])
         dp.reference_record_dict = {G.name_chr(c): "A" * ln for c, ln in chr_lengths.items()}
         dp.alignment_stat_counter = ST.EnumStats()
+        dp.gffutils_db = None           # read by warn_about_skipped_sequences (fix b09aace)
 
         def fake_collect(sample_, chr_id, args_):
             objs = [G.to_basic(r) for r in by_chr[chr_id]]
